@@ -157,6 +157,16 @@ def task_replay_fresh(t):
     return set()
 
 
+def shrink_seqx(modname, tag, sig, depth=3):
+    import subprocess
+    p = subprocess.run([sys.executable, "-m", "engine.shrink", modname, tag if tag else "-", sig, str(depth)],
+                       cwd=ROOT, capture_output=True, timeout=1800)
+    for ln in p.stdout.decode(errors="replace").split("\n"):
+        if ln.startswith("@@SHRUNK@@"):
+            return json.loads(ln[10:])
+    return None
+
+
 def load_findings():
     p = os.path.join(ROOT, "known_findings.json")
     if not os.path.exists(p):
@@ -240,6 +250,18 @@ def main(argv=None):
             if t is not None and sig in task_replay_fresh(t):
                 import base64
                 import pickle
+                shrunk = None
+                if isinstance(case, dict) and case.get("kind") == "seqx" and hasattr(mod, "seq_thunks"):
+                    shrunk = shrink_seqx(mod.__name__, case.get("tag"), sig)
+                if shrunk:
+                    case = dict(case, sequence=shrunk, note="shortest failing call sequence from the initial state")
+                    path = write_replay(pid, sig, case)
+                    new_viol += ctx.vcount[sig]
+                    exit_code = 1
+                    print("  signature=%s cases=%d [history-dependent; shortest sequence from a fresh process] first=%s"
+                          % (sig, ctx.vcount[sig], json.dumps(_jsonable(case), sort_keys=True)[:600]))
+                    print("VIOLATION property=%s replay=%s" % (pid, os.path.relpath(path, ROOT) if path.startswith(ROOT) else path))
+                    continue
                 case = {"kind": "__task__", "module": t[0], "func": t[1],
                         "arg_b64": base64.b64encode(pickle.dumps(t[2])).decode(),
                         "note": "history-dependent: the case below fails only after the earlier calls of this task in one process",
